@@ -83,6 +83,13 @@ def plan(thorough):
     r1 = P_RANK1 if thorough else P_RANK1[:3]
     n1 = 3 if thorough else 2
     run("t2", n1, 2, 2, fams([U], FAMS_U) + fams(r1, ["bx", "be"]) + (fams(P_RANK2[:3], ["bf"]) if thorough else []), nchunks=6, split=6 if thorough else 3, workers=6)
+    # multi-output kernels on a K(x1, x2) with FEWER ROWS THAN COLUMNS (the row and the column size must not be interchangeable)
+    if thorough:
+        run("t2r", 2, 3, 2, fams([U], FAMS_U) + fams(P_RANK1[:2], ["bx"]), nchunks=6, split=3, workers=8)
+        run("t3r", 1, 2, 3, fams([U], FAMS_U) + fams(P_RANK1[:2], ["bx"]), nchunks=4, split=2, workers=8)
+    else:
+        run("t2r", 1, 2, 2, fams([U], ["el", "ix"]), nchunks=2, workers=4)
+        run("t3r", 1, 2, 3, fams([U], ["el"]), nchunks=2, workers=4)
     if thorough:
         run("t1n33", 3, 3, 1, fams([U], FAMS_U), nchunks=4, workers=8)
         run("t2n33", 3, 3, 2, fams([U], FAMS_U), nchunks=8, split=4, workers=8)
@@ -90,7 +97,7 @@ def plan(thorough):
         run("t1bu", 3, 2, 1, fams(P_RANK1[:2], ["ix", "lx"]), nchunks=4, split=2, workers=8)
     # kernels that own an active_dims buffer, and kernels whose parameters have different tails (Scale(RBF))
     pp = P_PARAM if thorough else P_PARAM[:4]
-    run("t1ad", 3, 2, 1, fams(pp, ["bf", "kern"]), ad=(0, 2), nchunks=2)
+    run("t1ad", 3, 2, 1, fams(pp, ["bf", "kern"]), ad=(2, 0), nchunks=2)
     run("t1sc", 3, 2, 1, fams(pp, ["bf", "kern"]), tails=((), (1, 1)), nchunks=2)
     # transposition, unsqueeze, repeat, diagonal; kernel[idx] / expand_batch; chains K[i][j]
     run("t1ops", 2, 2, 1, fams(allp, ["ops", "kern"]))
@@ -239,7 +246,7 @@ def setup(cfg, pat, kname, square=False):
     n1, n2 = cfg["n1"], cfg["n2"]
     if kname == "stub":
         k = kz.LabelKernel(t=cfg["t"], tails=cfg["tails"], batch_shape=torch.Size(PB), active_dims=ad)
-        x1, x2 = kz.label_inputs(D1, n1), kz.label_inputs(D2, n2)
+        x1, x2 = kz.label_inputs(D1, n1, ad[0] if ad else 0), kz.label_inputs(D2, n2, ad[0] if ad else 0)
     else:
         z = kz.by_name(kname)
         if PB and not z.batch:
@@ -667,7 +674,15 @@ def _zoo_worker(item):
                             S = k(xs, xs)
                             return dense_of(S[..., : n1 * t, n1 * t:]) if lz else dense_of(S)[..., : n1 * t, n1 * t:]
                     rel("stacked-block" if lz else "stacked-block(eager)", st, E)
+            # slices WITHOUT an explicit stop on the other axis (the default stop is the size of that axis)
+            rel("lazy-rows", lazy(lambda: k(x1, x2)[..., 0:t, :]), E[..., 0:t, :])
+            rel("lazy-cols", lazy(lambda: k(x1, x2)[..., :, t:]), E[..., :, t:])
             if use_ad:
+                # active_dims reads back as given (order included), wherever the zoo entry puts it
+                def readback():
+                    bufs = [m.active_dims for m in k.modules() if getattr(m, "active_dims", None) is not None]
+                    return torch.stack([b.double() for b in bufs]) if bufs else torch.zeros(0)
+                rel("active_dims-readback", readback, torch.tensor(ad, dtype=torch.float64).expand(len([m for m in k.modules() if getattr(m, "active_dims", None) is not None]), len(ad)))
                 k2 = kz.twin(z, PB, sd, k)
                 A = torch.tensor(ad)
                 rel("active_dims-twin", lazy(lambda: k2(x1[..., A], x2[..., A])), E)
@@ -752,7 +767,12 @@ def run(ck):
         # gen: the generation run (dump) checks AgreeExceptKnown, which holds on the model of the pinned code, and the
         # structural invariants; pure: the same state space under the plain invariant Agree, no dump - TLC stops at the first
         # case where the model of the current code deviates (the prediction)
-        rr = dict(r, inv=["Agree"]) if pure else dict(r, inv=["AgreeExceptKnown" if i == "Agree" else i for i in r["inv"]])
+        if pure:
+            # a small part of the run's jobs is enough to exhibit a counterexample (int / batch-index / operation families first)
+            jj = sorted(r["jobs"], key=lambda j: 0 if j[1] in ("ix", "bx", "bf", "ops", "kern", "chain") else 1)[:2]
+            rr = dict(r, inv=["Agree"], jobs=jj, chunks=r["chunks"][:1])
+        else:
+            rr = dict(r, inv=["AgreeExceptKnown" if i == "Agree" else i for i in r["inv"]])
         mod, cfg = write_mc(os.path.join(wd, "pure" if pure else "gen"), rr)
         return ((mod, cfg), dict(name=PID + ("/pure_" if pure else "/gen_") + r["name"], timeout=3000, dump=not pure, check=False, workers=r["workers"] if not pure else 2,
                                  coverage=False, heap="4g", java_opts=("-XX:ParallelGCThreads=2", "-XX:CICompilerCount=2")))
